@@ -474,6 +474,11 @@ func TestC29(t *testing.T) {
 			if !r.Want(c.ID) {
 				continue
 			}
+			if reHugeExponent.MatchString(c.Text) {
+				// see reHugeExponent: decided by C28's isolated inputs, not here
+				r.Class("deferred:huge-exponent")
+				continue
+			}
 			res := c29Verdicts(c.Text, emitFor(c.ID, c.Family))
 			r.Eval(c.Text)
 			r.Class("family:" + c.Family)
